@@ -35,6 +35,7 @@ struct Events {
 
 /// run all selection methods of length n over xs (xs[0] is also the construction value)
 pub fn check_stream(n: usize, xs: &[f64], tag: &str, full_window_check: bool, r: &mut Report) -> bool {
+	r.case(&[4, n as u64, crate::reg::f64s_hash(xs)]);
 	let init = xs[0] as V;
 	let made = guard(|| {
 		Some(Insts {
@@ -172,6 +173,7 @@ pub fn check_stream(n: usize, xs: &[f64], tag: &str, full_window_check: bool, r:
 		let bucket = if n <= 6 { "n<=6" } else if n <= 40 { "n<=40" } else { "n>40" };
 		r.cell_n(&format!("event:{name}:{bucket}"), cnt);
 	}
+	r.sample_case(53, || json!({"window length": n, "tag": tag, "stream (first 16)": crate::rep::fjs(&xs[..xs.len().min(16)]), "steps": xs.len(), "judged": "Highest, Lowest, HighestLowestDelta, HighestIndex, LowestIndex, SMM, MedianAbsDev vs a sorted copy of the model window, with ==", "verdict": if ok { "held" } else { "violated" }}));
 	ok
 }
 
